@@ -88,7 +88,7 @@ func TestC16(t *testing.T) {
 			top:   top,
 			win:   win,
 			seeds: []uint64{drawEnvSeed(t, "env1"), drawEnvSeed(t, "env2")},
-			maxW:  24,
+			maxW:  memMaxWidth(win, 24),
 		}
 		fmt.Fprintf(&c.hist, "base(%s)%s;", baseKind, baseBlocks)
 		gaps2 := false
